@@ -217,6 +217,16 @@ def data_job(interp, c, case):
                      info={"sig": "Schnitz links", "what": "links"})
         if ok is False:
             c.failures[-1]["replay"] = {"kind": "Schnitz"}
+        # records with one daughter only, in either slot (tracking data where a sister was lost), and with none
+        for slots in ((d1, None), (None, d2), (None, None)):
+            s2 = T.ns["Schnitz"](tok("u", 3), tok("ud", (3, 2)), tok("uv", 3))
+            s2.py_set_daughters(*slots)
+            new2 = transport(interp, s2)
+            ok = c.prove(new2.py_get_daughters() == slots and new2.py_get_parent() is None,
+                         "Schnitz with daughters %s: each daughter slot survives on its own" % (tuple("set" if x is not None else "empty" for x in slots),),
+                         info={"sig": "Schnitz single daughter", "what": "links"})
+            if ok is False:
+                c.failures[-1]["replay"] = {"kind": "Schnitz"}
     elif which in ("lineage", "explineage"):
         lin = T.ns["ExperimentalLineage"]({"GFP": 0, "RFP": 1}) if which == "explineage" else T.ns["Lineage"]()
         ss = [T.ns["Schnitz"](tok("t%d" % i, 2), tok("d%d" % i, (2, 2)), tok("v%d" % i, 2)) for i in range(3)]
